@@ -564,9 +564,9 @@ class Interp3(Interp2):
         self.assume(kterm >= 0)
         if length is not None:
             self.assume(kterm <= length)
-        self.run_hints(spec, 'head', ghost)
         for inv in spec.invariants:
             self.assume(self.eval_clause(inv, ghost))
+        self.run_hints(spec, 'head', ghost)
         # 3. one arbitrary iteration, or exit
         if kind == 'for':
             go = self.decide(kterm < length)
